@@ -1,6 +1,9 @@
 (* Model/Based.v — sequencers/based/sequencer.go (GetNextBatch, NewSequencer) and
    sequencers/based/persistent_pending_txs.go (PersistentPendingTxs), AS REPAIRED by
-   fixes/C20-based-scan-position.diff (three one-line changes, marked "repair" below).
+   fixes/C20-based-scan-position.diff (three one-line changes, marked "repair" below) and by the commit
+   "fix: based sequencer: a request that cannot be used does not consume the carry-over queue" (the queue is
+   popped after the request has been checked, marked "repair 4").  The behaviour before repair 4 is kept at
+   the end of the file ([gnb_before_repair]) for the witness in Props/C20.v.
    Definitions only; proofs are in Proofs/BasedProofs.v.
 
    A transaction is identified by its DA position (height, index at that height) and carries its byte
@@ -30,14 +33,38 @@ Definition restart (s : state) : state :=
 
 Record config := { cf_start : N; cf_drift : N }.   (* daStartHeight, maxHeightDrift *)
 
-(* what the caller passes as LastBatchData: what block.Manager keeps (manager.go:553,577), nothing, or a
-   forged value naming height h *)
-Inductive lbd := LMgr | LNone | LRaw (h : N).
+(* what the caller passes as LastBatchData: what block.Manager keeps (manager.go:553,577), nothing, a
+   forged value naming height h, or a non-empty value whose LAST id cannot name a DA height (8 bytes or
+   fewer, the empty id included: coreda.SplitID fails, core/da/da.go:126-129) *)
+Inductive lbd := LMgr | LNone | LRaw (h : N) | LShort.
+
+(* the rest of the request: an ordinary one; one whose context is already cancelled (the DA client answers
+   every retrieval with the context's error; the map datastore does not look at the context); one that
+   carries another chain's id (isValid fails, sequencer.go:117-119) *)
+Inductive reqk := QOk | QCancelled | QForeignId.
 
 (* one GetNextBatch call: requested MaxBytes; the DA tip during the call; per retrieval of the call, in
    order: 0 = answered, 1 = GetIDs fails, 2 = Get fails, 3 = an empty height answered with ErrBlobNotFound
-   instead of an empty id list; the LastBatchData policy *)
-Record call := mkcall { c_max : N; c_tip : N; c_errs : list N; c_lbd : lbd }.
+   instead of an empty id list; the LastBatchData policy; the kind of request *)
+Record call := mkcallq { c_max : N; c_tip : N; c_errs : list N; c_lbd : lbd; c_req : reqk }.
+Definition mkcall (m t : N) (e : list N) (l : lbd) : call := mkcallq m t e l QOk.
+
+(* the error classes GetNextBatch returns *)
+Inductive errk := EInvalidId      (* ErrInvalidId, sequencer.go:118 *)
+                | EBadLbd.        (* "failed to get last DA height", sequencer.go:140-143 *)
+
+(* a request that cannot be used: the chain id is looked at first (sequencer.go:117), the last id of
+   LastBatchData after the scan position has been read (sequencer.go:139-143) *)
+Definition unusable (c : call) : option errk :=
+  match c_req c with
+  | QForeignId => Some EInvalidId
+  | _ => match c_lbd c with LShort => Some EBadLbd | _ => None end
+  end.
+
+(* the retrieval script as the call sees it: under a cancelled context every retrieval fails (the scan
+   stops at the first failure, so one entry is enough) *)
+Definition call_errs (c : call) : list N :=
+  match c_req c with QCancelled => [1] | _ => c_errs c end.
 
 (* types.RetrieveWithHelpers (types/da.go:101-185) as GetNextBatch sees it *)
 Inductive dares := DErr | DFuture | DOk (txs : list tx).
@@ -95,60 +122,70 @@ Record scan_res := { sr_txs : list tx;          (* appended to the batch *)
 Definition scan_stop (next : N) (ts : option N) (log : list N) : scan_res :=
   {| sr_txs := []; sr_push := None; sr_next := next; sr_ts := ts; sr_log := log |}.
 
-(* sequencer.go:163-202 OuterLoop (line numbers of the repaired file).  [fuel] = number of heights the drift test (sequencer.go:168) lets
+(* sequencer.go:164-203 OuterLoop (line numbers of the repaired file).  [fuel] = number of heights the drift test (sequencer.go:169) lets
    through, i.e. lastDAHeight + maxHeightDrift + 1 - nextDAHeight. *)
 Fixpoint scan (daf : N -> list tx) (maxb tip : N) (fuel : nat) (next : N) (errs : list N)
               (size : N) (ts : option N) : scan_res :=
   match fuel with
-  | O => scan_stop next ts []                                           (* :168-171 drift exceeded *)
+  | O => scan_stop next ts []                                           (* :169-172 drift exceeded *)
   | S f =>
-      if size <? maxb then                                              (* :166 loop condition *)
+      if size <? maxb then                                              (* :167 loop condition *)
         match retrieve daf tip next (hd 0 errs) with
-        | DErr => scan_stop next ts [next]                              (* :174-179 *)
-        | DFuture => scan_stop next ts [next]                           (* :174-179 repair: a future height stops the scan *)
+        | DErr => scan_stop next ts [next]                              (* :175-180 *)
+        | DFuture => scan_stop next ts [next]                           (* :175-180 repair: a future height stops the scan *)
         | DOk txs =>
             let '(p, rest, s) := take_fit maxb txs size in
-            let ts' := match p with [] => ts | _ => Some next end in    (* :196 *)
+            let ts' := match p with [] => ts | _ => Some next end in    (* :197 *)
             match rest with
-            | [] => let r := scan daf maxb tip f (next + 1) (tl errs) s ts' in      (* :201 nextDAHeight++ *)
+            | [] => let r := scan daf maxb tip f (next + 1) (tl errs) s ts' in      (* :202 nextDAHeight++ *)
                     {| sr_txs := p ++ sr_txs r; sr_push := sr_push r; sr_next := sr_next r;
                        sr_ts := sr_ts r; sr_log := next :: sr_log r |}
-            | _ => {| sr_txs := p; sr_push := Some {| e_txs := rest; e_ts := next |};   (* :189 Push *)
-                      sr_next := next + 1;                              (* :190-191 repair: the height is consumed *)
+            | _ => {| sr_txs := p; sr_push := Some {| e_txs := rest; e_ts := next |};   (* :190 Push *)
+                      sr_next := next + 1;                              (* :191-192 repair: the height is consumed *)
                       sr_ts := ts'; sr_log := [next] |}
             end
         end
       else scan_stop next ts []
   end.
 
-(* sequencer.go:141-150: max(daStartHeight, persisted position) *)
+(* sequencer.go:127-137: max(daStartHeight, persisted position) *)
 Definition scan_pos (cfg : config) (s : state) : N :=
   match dur_scan s with Some v => N.max (cf_start cfg) v | None => cf_start cfg end.
 
-Inductive response := MNone | MBatch (txs : list tx) (ts : option N).
+Inductive response := MNone | MBatch (txs : list tx) (ts : option N) | MErr (e : errk).
 
-(* sequencer.go:116-218 GetNextBatch with a valid chain id and well-formed LastBatchData naming height
-   [lbdh] (None = empty LastBatchData).  Result: new state, response, heights retrieved. *)
+(* sequencer.go:120-218 GetNextBatch once the request has been found usable: a valid chain id and a
+   LastBatchData that is empty ([lbdh] = None) or whose last id names height [lbdh].
+   Result: new state, response, heights retrieved. *)
 Definition get_next_batch (cfg : config) (daf : N -> list tx) (s : state) (c : call) (lbdh : option N)
   : state * response * list N :=
   let maxb := eff_max (c_max c) in
-  let '(popped, q1, size, ts) := pop maxb (mem_q s) 0 None in           (* :131 *)
-  let last0 := scan_pos cfg s in                                        (* :141-151 *)
+  let last0 := scan_pos cfg s in                                        (* :127-137 *)
   let '(last, next0) :=
-    match lbdh with                                                     (* :153-162 *)
+    match lbdh with                                                     (* :139-148 *)
     | Some h => if last0 <? h then (h, h + 1) else (last0, last0)
     | None => (last0, last0)
     end in
+  let '(popped, q1, size, ts) := pop maxb (mem_q s) 0 None in           (* :156 repair 4: only now *)
   let r := match q1 with
-           | [] => scan daf maxb (c_tip c) (N.to_nat (last + cf_drift cfg + 1 - next0)) next0 (c_errs c) size ts
-           | _ => scan_stop next0 ts []          (* :166 repair: no scan while the queue is not drained *)
+           | [] => scan daf maxb (c_tip c) (N.to_nat (last + cf_drift cfg + 1 - next0)) next0 (call_errs c) size ts
+           | _ => scan_stop next0 ts []          (* :167 repair: no scan while the queue is not drained *)
            end in
   let q2 := q1 ++ match sr_push r with Some e => [e] | None => [] end in
   let txs := popped ++ sr_txs r in
   ({| mem_q := q2; dur_q := q2;                                         (* every Pop and Push ends in Save *)
-      dur_scan := Some (sr_next r) |},                                  (* :212 *)
-   match txs with [] => MNone | _ => MBatch txs (sr_ts r) end,          (* :214-217 *)
+      dur_scan := Some (sr_next r) |},                                  (* :213 *)
+   match txs with [] => MNone | _ => MBatch txs (sr_ts r) end,          (* :215-218 *)
    sr_log r).
+
+(* sequencer.go:116-219 GetNextBatch, any request.  A request that cannot be used is answered with an error
+   BEFORE anything is popped, pushed, retrieved or stored: the state is the state before the call. *)
+Definition gnb (cfg : config) (daf : N -> list tx) (s : state) (c : call) (lbdh : option N)
+  : state * response * list N :=
+  match unusable c with
+  | Some e => (s, MErr e, [])                                           (* :117-119, :139-143 *)
+  | None => get_next_batch cfg daf s c lbdh
+  end.
 
 (* ---- the sequencer together with its caller ------------------------------------------------------- *)
 (* block.Manager.retrieveBatch (manager.go:546-582) keeps the BatchData of the last non-nil response and
@@ -160,7 +197,7 @@ Definition last_height (txs : list tx) : option N :=
   match rev txs with t :: _ => Some (t_h t) | [] => None end.
 
 Definition lbd_of (m : option N) (c : call) : option N :=
-  match c_lbd c with LMgr => m | LNone => None | LRaw h => Some h end.
+  match c_lbd c with LMgr => m | LNone => None | LRaw h => Some h | LShort => None end.
 
 Inductive item := ICall (c : call) | IRestart.
 
@@ -169,15 +206,15 @@ Definition step (cfg : config) (daf : N -> list tx) (y : sys) (it : item)
   match it with
   | IRestart => ({| sy_st := restart (sy_st y); sy_lbd := sy_lbd y |}, None)
   | ICall c =>
-      let '(s', r, log) := get_next_batch cfg daf (sy_st y) c (lbd_of (sy_lbd y) c) in
-      ({| sy_st := s';
-          sy_lbd := match r with MBatch txs _ => last_height txs | MNone => sy_lbd y end |},
+      let '(s', r, log) := gnb cfg daf (sy_st y) c (lbd_of (sy_lbd y) c) in
+      ({| sy_st := s';                       (* manager.go:546-582: kept only from a non-nil response *)
+          sy_lbd := match r with MBatch txs _ => last_height txs | _ => sy_lbd y end |},
        Some (r, log))
   end.
 
 (* the response of one more call, and the system after it *)
 Definition call_resp (cfg : config) (daf : N -> list tx) (y : sys) (c : call) : response :=
-  snd (fst (get_next_batch cfg daf (sy_st y) c (lbd_of (sy_lbd y) c))).
+  snd (fst (gnb cfg daf (sy_st y) c (lbd_of (sy_lbd y) c))).
 Definition after_call (cfg : config) (daf : N -> list tx) (y : sys) (c : call) : sys :=
   fst (step cfg daf y (ICall c)).
 
@@ -197,7 +234,7 @@ Fixpoint trace (cfg : config) (daf : N -> list tx) (y : sys) (h : list item)
       end
   end.
 
-Definition batch_of (rp : response) : list tx := match rp with MBatch t _ => t | MNone => [] end.
+Definition batch_of (rp : response) : list tx := match rp with MBatch t _ => t | _ => [] end.
 
 (* everything released over a history, in release order *)
 Definition released (cfg : config) (daf : N -> list tx) (y : sys) (h : list item) : list tx :=
@@ -216,12 +253,17 @@ Definition stream (daf : N -> list tx) (a b : N) : list tx := stream_n daf a (N.
 (* a transaction found at height h carries height h *)
 Definition wf_da (daf : N -> list tx) : Prop := forall h t, In t (daf h) -> t_h t = h.
 
-(* LastBatchData is never forged: it is what the manager kept, or nothing *)
+(* LastBatchData is never forged to name a height: it is what the manager kept, nothing, or unusable *)
 Definition manager_lbd (h : list item) : bool :=
   forallb (fun it => match it with ICall c => match c_lbd c with LRaw _ => false | _ => true end | IRestart => true end) h.
 
 Definition no_restarts (h : list item) : list item :=
   filter (fun it => match it with IRestart => false | ICall _ => true end) h.
+
+(* the history without the calls whose request cannot be used *)
+Definition usable_item (it : item) : bool :=
+  match it with ICall c => match unusable c with Some _ => false | None => true end | IRestart => true end.
+Definition usable_only (h : list item) : list item := filter usable_item h.
 
 Definition total (txs : list tx) : N := fold_right (fun t a => t_sz t + a) 0 txs.
 
@@ -233,3 +275,33 @@ Fixpoint mk_txs (h i : N) (szs : list N) : list tx :=
   match szs with [] => [] | s :: r => {| t_h := h; t_i := i; t_sz := s |} :: mk_txs h (i + 1) r end.
 Definition da_at (da : list (N * list N)) (h : N) : list tx :=
   match find (fun p => fst p =? h) da with Some p => mk_txs h 0 (snd p) | None => [] end.
+
+(* ---- before repair 4 (sequencer.go of the parent commit: PopUpToMaxBytes at :131, ahead of the LastBatchData
+   check at :153-157) ------------------------------------------------------------------------------------------
+   A foreign chain id was refused before the pop then as now.  A LastBatchData whose last id is too short was
+   refused AFTER PopUpToMaxBytes had removed the popped transactions from memory and stored the shortened
+   queue: they are in no batch, no longer queued, and behind the stored scan position. *)
+Definition gnb_before_repair (cfg : config) (daf : N -> list tx) (s : state) (c : call) (lbdh : option N)
+  : state * response * list N :=
+  match c_req c with
+  | QForeignId => (s, MErr EInvalidId, [])
+  | _ =>
+      match c_lbd c with
+      | LShort =>
+          let '(_, q1, _, _) := pop (eff_max (c_max c)) (mem_q s) 0 None in
+          ({| mem_q := q1; dur_q := q1; dur_scan := dur_scan s |}, MErr EBadLbd, [])
+      | _ => get_next_batch cfg daf s c lbdh
+      end
+  end.
+
+(* the batches released by a history of calls under the pre-repair rule *)
+Fixpoint released_before_repair (cfg : config) (daf : N -> list tx) (y : sys) (h : list item) : list tx :=
+  match h with
+  | [] => []
+  | IRestart :: r => released_before_repair cfg daf {| sy_st := restart (sy_st y); sy_lbd := sy_lbd y |} r
+  | ICall c :: r =>
+      let '(s', rp, _) := gnb_before_repair cfg daf (sy_st y) c (lbd_of (sy_lbd y) c) in
+      batch_of rp ++
+      released_before_repair cfg daf
+        {| sy_st := s'; sy_lbd := match rp with MBatch txs _ => last_height txs | _ => sy_lbd y end |} r
+  end.
